@@ -15,11 +15,11 @@ from . import common, driver_sched
 from .common import Report, MachineryError, SPEC
 
 MODEL = {
-    "C08": (["naive2s", "over1"], ["naive2", "naive1", "over"]),
+    "C08": (["naive2s", "over1", "pr1", "pp"], ["naive2", "naive1", "over", "pr", "pr2", "prs"]),
     "C17": (["naive2", "naive2s", "naive1"], []),
     "C18": (["over", "over1"], []),
-    "C12": ([], []),
-    "C16": ([], []),
+    "C12": (["pr1", "pp"], ["pr", "pr2", "prs"]),
+    "C16": (["pp"], []),
 }
 POLICIES = {
     "C08": ["naive", "priority", "priority-pool", "overbook"],
@@ -55,6 +55,24 @@ def run_models(rep, prop, tier):
         rep.add_model(f"MC_Sched_{name}", r)
         if r.violated:
             raise MachineryError(f"model MC_Sched_{name} violates {r.violated}:\n" + "\n".join(r.out.splitlines()[-40:]))
+
+
+WITNESS = {"C12": [("pr1", "W_NoSuspension"), ("pr1", "W_NoContention"), ("pr1", "W_NoSuspensionFinished")],
+           "C16": [("pp", "W_NoRetry")], "C08": [("pr1", "W_NoSuspension")]}
+
+
+def run_witnesses(rep, prop):
+    """Non-vacuity of the bounded models: the situations the property is about must be REACHABLE (TLC must refute the witness)."""
+    base = None
+    for cfgname, inv in WITNESS.get(prop, []):
+        src = (SPEC / f"MC_Sched_{cfgname}.cfg").read_text().splitlines()
+        cfg = "\n".join(ln for ln in src if not ln.startswith(("INVARIANT", "PROPERTY"))) + f"\nINVARIANT {inv}\n"
+        f = common.scratch() / f"MC_Sched_w_{inv}.cfg"
+        f.write_text(cfg)
+        r = common.run_tlc("MC_Sched", f, timeout=1200, workers=8)
+        if inv not in r.violated:
+            raise MachineryError(f"vacuity: the bounded model MC_Sched_{cfgname} never reaches the situation {inv[2:]} (witness not refuted)")
+        rep.extra.setdefault("witnesses_reached", []).append(f"{cfgname}:{inv}")
 
 
 def validate(traces, rep, prop, *, step=False):
@@ -93,10 +111,14 @@ def run(prop, tier, extra=None):
         "contracts are evaluated on every round of the recorded runs; exhaustive results hold for the small workload sets of MC_Sched_*.cfg",
     ]
     run_models(rep, prop, tier)
+    run_witnesses(rep, prop)
     if extra is not None:
         extra(rep, tier)
     traces = driver_sched.gen_traces(NTRACES[tier], common.seed() + hash(prop) % 1000 if False else common.seed() + int(prop[1:]) * 101,
                                      policies=POLICIES[prop])
+    if prop == "C08":
+        # deterministic probes of the listed known finding D6 (priority-pool ignores single-operator mode)
+        traces += [driver_sched.run_scenario(1000 + i, 10**6 + i, "priority-pool", "single") for i in range(4)]
     mon, mon2, owners = validate(traces, rep, prop, step=(prop == "C08"))
     rep.traces += mon.traces
     rep.evaluations += mon.lines
